@@ -13,31 +13,31 @@ import (
 )
 
 var (
-	reDeclOpt     = regexp.MustCompile(`^(\s*(?:let|var) \w+): ([^=]+?)\? = (.+)$`)
-	reDeclAny     = regexp.MustCompile(`^(\s*(?:let|var) \w+): ([^=@]+?) = (.+)$`)
-	reDeclNoAnno  = regexp.MustCompile(`^(\s*)(let|var) (\w+) (=|<-) (.+)$`)
-	reLetVar      = regexp.MustCompile(`^(\s*)(let|var) `)
-	reIdent       = regexp.MustCompile(`\b(?:v|p|u|r|x|y|a|i|acc|o|q|old|z|rs|rd|ref|any|nf|rm)\d+\b`)
-	reSmallInt    = regexp.MustCompile(`\b\d\b`)
-	reForce       = regexp.MustCompile(`([\w\)\]])!`)
-	reOptParam    = regexp.MustCompile(`(\w+: [A-Za-z0-9_.\[\]{}: ]+?)\?([,)])`)
-	reFieldOpt    = regexp.MustCompile(`^(\s*access\(all\) (?:let|var) \w+: .+?)\?$`)
-	reCoalesce    = regexp.MustCompile(` \?\? `)
-	reRetType     = regexp.MustCompile(`\): ([A-Za-z0-9_.]+)\? \{$`)
-	reArrAnno     = regexp.MustCompile(`: \[([A-Za-z0-9_.]+)\] = `)
-	reStmtLine    = regexp.MustCompile(`^\s+\S`)
-	reIfCond      = regexp.MustCompile(`^(\s*)if (.+) \{$`)
-	reReturn      = regexp.MustCompile(`^\s*return\b`)
-	reOptChainDot = regexp.MustCompile(`\?\.`)
+	dmReDeclOpt     = regexp.MustCompile(`^(\s*(?:let|var) \w+): ([^=]+?)\? = (.+)$`)
+	dmReDeclAny     = regexp.MustCompile(`^(\s*(?:let|var) \w+): ([^=@]+?) = (.+)$`)
+	dmReDeclNoAnno  = regexp.MustCompile(`^(\s*)(let|var) (\w+) (=|<-) (.+)$`)
+	dmReLetVar      = regexp.MustCompile(`^(\s*)(let|var) `)
+	dmReIdent       = regexp.MustCompile(`\b(?:v|p|u|r|x|y|a|i|acc|o|q|old|z|rs|rd|ref|any|nf|rm)\d+\b`)
+	dmReSmallInt    = regexp.MustCompile(`\b\d\b`)
+	dmReForce       = regexp.MustCompile(`([\w\)\]])!`)
+	dmReOptParam    = regexp.MustCompile(`(\w+: [A-Za-z0-9_.\[\]{}: ]+?)\?([,)])`)
+	dmReFieldOpt    = regexp.MustCompile(`^(\s*access\(all\) (?:let|var) \w+: .+?)\?$`)
+	dmReCoalesce    = regexp.MustCompile(` \?\? `)
+	dmReRetType     = regexp.MustCompile(`\): ([A-Za-z0-9_.]+)\? \{$`)
+	dmReArrAnno     = regexp.MustCompile(`: \[([A-Za-z0-9_.]+)\] = `)
+	dmReStmtLine    = regexp.MustCompile(`^\s+\S`)
+	dmReIfCond      = regexp.MustCompile(`^(\s*)if (.+) \{$`)
+	dmReReturn      = regexp.MustCompile(`^\s*return\b`)
+	dmReOptChainDot = regexp.MustCompile(`\?\.`)
 )
 
-type mutOp struct {
+type dmMutOp struct {
 	name string
 	f    func(r *lib.Rng, lines []string) ([]string, bool)
 }
 
 // pickLine returns the index of a random line satisfying pred, or -1.
-func pickLine(r *lib.Rng, lines []string, pred func(string) bool) int {
+func dmPickLine(r *lib.Rng, lines []string, pred func(string) bool) int {
 	var idx []int
 	for i, l := range lines {
 		if pred(l) {
@@ -50,7 +50,7 @@ func pickLine(r *lib.Rng, lines []string, pred func(string) bool) int {
 	return idx[r.Intn(len(idx))]
 }
 
-func replaceNth(re *regexp.Regexp, s string, n int, repl func(m []string) string) string {
+func dmReplaceNth(re *regexp.Regexp, s string, n int, repl func(m []string) string) string {
 	locs := re.FindAllStringSubmatchIndex(s, -1)
 	if n >= len(locs) {
 		return s
@@ -67,32 +67,32 @@ func replaceNth(re *regexp.Regexp, s string, n int, repl func(m []string) string
 	return s[:loc[0]] + repl(m) + s[loc[1]:]
 }
 
-func isPlainStmt(l string) bool {
+func dmIsPlainStmt(l string) bool {
 	t := strings.TrimSpace(l)
 	if t == "" || t == "}" || strings.HasSuffix(t, "{") || strings.HasPrefix(t, "}") || strings.HasPrefix(t, "access(") ||
 		strings.HasPrefix(t, "case ") || t == "default:" || strings.HasPrefix(t, "import ") || strings.HasPrefix(t, "init(") ||
 		strings.HasPrefix(t, "pre ") || strings.HasPrefix(t, "post ") || strings.HasPrefix(t, "})") {
 		return false
 	}
-	return reStmtLine.MatchString(l)
+	return dmReStmtLine.MatchString(l)
 }
 
-func lineMut(re *regexp.Regexp, repl func(r *lib.Rng, m []string) string) func(r *lib.Rng, lines []string) ([]string, bool) {
+func dmLineMut(re *regexp.Regexp, repl func(r *lib.Rng, m []string) string) func(r *lib.Rng, lines []string) ([]string, bool) {
 	return func(r *lib.Rng, lines []string) ([]string, bool) {
-		i := pickLine(r, lines, func(l string) bool { return re.MatchString(l) && !strings.Contains(l, "decodeHex") })
+		i := dmPickLine(r, lines, func(l string) bool { return re.MatchString(l) && !strings.Contains(l, "decodeHex") })
 		if i < 0 {
 			return nil, false
 		}
 		out := append([]string{}, lines...)
 		n := len(re.FindAllStringIndex(lines[i], -1))
 		k := r.Intn(n)
-		out[i] = replaceNth(re, lines[i], k, func(m []string) string { return repl(r, m) })
+		out[i] = dmReplaceNth(re, lines[i], k, func(m []string) string { return repl(r, m) })
 		return out, out[i] != lines[i]
 	}
 }
 
-var mutOps = []mutOp{
-	{"annot-add-optional", lineMut(reDeclAny, func(r *lib.Rng, m []string) string {
+var dmMutOps = []dmMutOp{
+	{"annot-add-optional", dmLineMut(dmReDeclAny, func(r *lib.Rng, m []string) string {
 		if strings.HasSuffix(m[2], "?") {
 			return m[0]
 		}
@@ -102,30 +102,30 @@ var mutOps = []mutOp{
 		}
 		return m[1] + ": " + t + "? = " + m[3]
 	})},
-	{"annot-drop-optional", lineMut(reDeclOpt, func(r *lib.Rng, m []string) string {
+	{"annot-drop-optional", dmLineMut(dmReDeclOpt, func(r *lib.Rng, m []string) string {
 		return m[1] + ": " + m[2] + " = " + m[3]
 	})},
-	{"annot-to-anystruct", lineMut(reDeclAny, func(r *lib.Rng, m []string) string {
+	{"annot-to-anystruct", dmLineMut(dmReDeclAny, func(r *lib.Rng, m []string) string {
 		return m[1] + ": AnyStruct = " + m[3]
 	})},
-	{"annot-drop", lineMut(reDeclAny, func(r *lib.Rng, m []string) string {
+	{"annot-drop", dmLineMut(dmReDeclAny, func(r *lib.Rng, m []string) string {
 		return m[1] + " = " + m[3]
 	})},
-	{"let-var", lineMut(reLetVar, func(r *lib.Rng, m []string) string {
+	{"let-var", dmLineMut(dmReLetVar, func(r *lib.Rng, m []string) string {
 		if m[2] == "let" {
 			return m[1] + "var "
 		}
 		return m[1] + "let "
 	})},
-	{"wrap-conditional-nil", lineMut(reDeclOpt, func(r *lib.Rng, m []string) string {
+	{"wrap-conditional-nil", dmLineMut(dmReDeclOpt, func(r *lib.Rng, m []string) string {
 		c := []string{"true", "false", "(1 < 2)"}[r.Intn(3)]
 		return m[1] + ": " + m[2] + "? = (" + c + " ? " + m[3] + " : nil)"
 	})},
-	{"wrap-conditional-same", lineMut(reDeclAny, func(r *lib.Rng, m []string) string {
+	{"wrap-conditional-same", dmLineMut(dmReDeclAny, func(r *lib.Rng, m []string) string {
 		c := []string{"true", "false"}[r.Intn(2)]
 		return m[1] + ": " + m[2] + " = (" + c + " ? " + m[3] + " : " + m[3] + ")"
 	})},
-	{"cast-through-anystruct", lineMut(reDeclAny, func(r *lib.Rng, m []string) string {
+	{"cast-through-anystruct", dmLineMut(dmReDeclAny, func(r *lib.Rng, m []string) string {
 		if strings.Contains(m[2], "&") || strings.Contains(m[2], "fun") {
 			return m[0]
 		}
@@ -135,15 +135,15 @@ var mutOps = []mutOp{
 		}
 		return m[1] + ": " + m[2] + " = ((" + m[3] + ") as AnyStruct) as! " + m[2]
 	})},
-	{"drop-force-unwrap", lineMut(reForce, func(r *lib.Rng, m []string) string { return m[1] })},
+	{"drop-force-unwrap", dmLineMut(dmReForce, func(r *lib.Rng, m []string) string { return m[1] })},
 	{"drop-coalescing", func(r *lib.Rng, lines []string) ([]string, bool) {
 		// `(a ?? b)` -> `(a)` : cut from ` ?? ` to the matching close parenthesis
-		i := pickLine(r, lines, func(l string) bool { return reCoalesce.MatchString(l) && !strings.Contains(l, "decodeHex") })
+		i := dmPickLine(r, lines, func(l string) bool { return dmReCoalesce.MatchString(l) && !strings.Contains(l, "decodeHex") })
 		if i < 0 {
 			return nil, false
 		}
 		l := lines[i]
-		locs := reCoalesce.FindAllStringIndex(l, -1)
+		locs := dmReCoalesce.FindAllStringIndex(l, -1)
 		loc := locs[r.Intn(len(locs))]
 		depth := 0
 		end := -1
@@ -180,16 +180,16 @@ var mutOps = []mutOp{
 		out[i] = l[:loc[0]] + l[end:]
 		return out, true
 	}},
-	{"optchain-to-member", lineMut(reOptChainDot, func(r *lib.Rng, m []string) string { return "." })},
-	{"cast-kind", lineMut(regexp.MustCompile(` as[!?]? `), func(r *lib.Rng, m []string) string {
+	{"optchain-to-member", dmLineMut(dmReOptChainDot, func(r *lib.Rng, m []string) string { return "." })},
+	{"cast-kind", dmLineMut(regexp.MustCompile(` as[!?]? `), func(r *lib.Rng, m []string) string {
 		return []string{" as ", " as! ", " as? "}[r.Intn(3)]
 	})},
-	{"param-drop-optional", lineMut(reOptParam, func(r *lib.Rng, m []string) string { return m[1] + m[2] })},
-	{"field-drop-optional", lineMut(reFieldOpt, func(r *lib.Rng, m []string) string { return m[1] })},
-	{"return-type-drop-optional", lineMut(reRetType, func(r *lib.Rng, m []string) string { return "): " + m[1] + " {" })},
-	{"array-annot-optional-elements", lineMut(reArrAnno, func(r *lib.Rng, m []string) string { return ": [" + m[1] + "?] = " })},
+	{"param-drop-optional", dmLineMut(dmReOptParam, func(r *lib.Rng, m []string) string { return m[1] + m[2] })},
+	{"field-drop-optional", dmLineMut(dmReFieldOpt, func(r *lib.Rng, m []string) string { return m[1] })},
+	{"return-type-drop-optional", dmLineMut(dmReRetType, func(r *lib.Rng, m []string) string { return "): " + m[1] + " {" })},
+	{"array-annot-optional-elements", dmLineMut(dmReArrAnno, func(r *lib.Rng, m []string) string { return ": [" + m[1] + "?] = " })},
 	{"replace-variable", func(r *lib.Rng, lines []string) ([]string, bool) {
-		i := pickLine(r, lines, func(l string) bool { return reIdent.MatchString(l) && !strings.Contains(l, "decodeHex") })
+		i := dmPickLine(r, lines, func(l string) bool { return dmReIdent.MatchString(l) && !strings.Contains(l, "decodeHex") })
 		if i < 0 {
 			return nil, false
 		}
@@ -197,7 +197,7 @@ var mutOps = []mutOp{
 		seen := map[string]bool{}
 		var ids []string
 		for _, l := range lines[:i+1] {
-			for _, id := range reIdent.FindAllString(l, -1) {
+			for _, id := range dmReIdent.FindAllString(l, -1) {
 				if !seen[id] {
 					seen[id] = true
 					ids = append(ids, id)
@@ -207,7 +207,7 @@ var mutOps = []mutOp{
 		if len(ids) < 2 {
 			return nil, false
 		}
-		locs := reIdent.FindAllStringIndex(lines[i], -1)
+		locs := dmReIdent.FindAllStringIndex(lines[i], -1)
 		loc := locs[r.Intn(len(locs))]
 		old := lines[i][loc[0]:loc[1]]
 		// prefer an identifier with the same prefix (same kind of variable)
@@ -231,7 +231,7 @@ var mutOps = []mutOp{
 		return out, true
 	}},
 	{"drop-statement", func(r *lib.Rng, lines []string) ([]string, bool) {
-		i := pickLine(r, lines, isPlainStmt)
+		i := dmPickLine(r, lines, dmIsPlainStmt)
 		if i < 0 {
 			return nil, false
 		}
@@ -239,7 +239,7 @@ var mutOps = []mutOp{
 		return out, true
 	}},
 	{"drop-return", func(r *lib.Rng, lines []string) ([]string, bool) {
-		i := pickLine(r, lines, func(l string) bool { return reReturn.MatchString(l) })
+		i := dmPickLine(r, lines, func(l string) bool { return dmReReturn.MatchString(l) })
 		if i < 0 {
 			return nil, false
 		}
@@ -247,14 +247,14 @@ var mutOps = []mutOp{
 		return out, true
 	}},
 	{"drop-block", func(r *lib.Rng, lines []string) ([]string, bool) {
-		i := pickLine(r, lines, func(l string) bool {
+		i := dmPickLine(r, lines, func(l string) bool {
 			t := strings.TrimSpace(l)
 			return strings.HasSuffix(t, "{") && (strings.HasPrefix(t, "if ") || strings.HasPrefix(t, "while ") || strings.HasPrefix(t, "for ") || strings.HasPrefix(t, "} else"))
 		})
 		if i < 0 {
 			return nil, false
 		}
-		e := blockEndFrom(lines, i)
+		e := dmBlockEndFrom(lines, i)
 		if e <= i {
 			return nil, false
 		}
@@ -271,8 +271,8 @@ var mutOps = []mutOp{
 		return out, true
 	}},
 	{"swap-statements", func(r *lib.Rng, lines []string) ([]string, bool) {
-		i := pickLine(r, lines[:imax(len(lines)-1, 0)], isPlainStmt)
-		if i < 0 || i+1 >= len(lines) || !isPlainStmt(lines[i+1]) {
+		i := dmPickLine(r, lines[:dmImax(len(lines)-1, 0)], dmIsPlainStmt)
+		if i < 0 || i+1 >= len(lines) || !dmIsPlainStmt(lines[i+1]) {
 			return nil, false
 		}
 		out := append([]string{}, lines...)
@@ -280,9 +280,9 @@ var mutOps = []mutOp{
 		return out, true
 	}},
 	{"duplicate-statement", func(r *lib.Rng, lines []string) ([]string, bool) {
-		i := pickLine(r, lines, func(l string) bool {
+		i := dmPickLine(r, lines, func(l string) bool {
 			t := strings.TrimSpace(l)
-			return isPlainStmt(l) && !strings.HasPrefix(t, "let ") && !strings.HasPrefix(t, "var ") && !strings.HasPrefix(t, "return") && !strings.HasPrefix(t, "fun ")
+			return dmIsPlainStmt(l) && !strings.HasPrefix(t, "let ") && !strings.HasPrefix(t, "var ") && !strings.HasPrefix(t, "return") && !strings.HasPrefix(t, "fun ")
 		})
 		if i < 0 {
 			return nil, false
@@ -294,13 +294,13 @@ var mutOps = []mutOp{
 	}},
 	{"move-statement-later", func(r *lib.Rng, lines []string) ([]string, bool) {
 		// move a plain statement a few lines down within the same block (same indentation, no braces crossed)
-		i := pickLine(r, lines, isPlainStmt)
+		i := dmPickLine(r, lines, dmIsPlainStmt)
 		if i < 0 {
 			return nil, false
 		}
 		ind := len(lines[i]) - len(strings.TrimLeft(lines[i], " "))
 		j := i
-		for j+1 < len(lines) && isPlainStmt(lines[j+1]) && len(lines[j+1])-len(strings.TrimLeft(lines[j+1], " ")) == ind && j-i < 4 {
+		for j+1 < len(lines) && dmIsPlainStmt(lines[j+1]) && len(lines[j+1])-len(strings.TrimLeft(lines[j+1], " ")) == ind && j-i < 4 {
 			j++
 		}
 		if j == i {
@@ -313,28 +313,28 @@ var mutOps = []mutOp{
 		out = append(out, lines[k+1:]...)
 		return out, true
 	}},
-	{"literal-change", lineMut(reSmallInt, func(r *lib.Rng, m []string) string {
+	{"literal-change", dmLineMut(dmReSmallInt, func(r *lib.Rng, m []string) string {
 		return []string{"0", "1", "2", "5", "9", "100", "127", "128", "255", "256"}[r.Intn(10)]
 	})},
-	{"negate-condition", lineMut(reIfCond, func(r *lib.Rng, m []string) string {
+	{"negate-condition", dmLineMut(dmReIfCond, func(r *lib.Rng, m []string) string {
 		if strings.HasPrefix(m[2], "let ") || strings.HasPrefix(m[2], "var ") {
 			return m[0]
 		}
 		return m[1] + "if !(" + m[2] + ") {"
 	})},
-	{"nil-argument", lineMut(regexp.MustCompile(`\(([a-z]\w*): [^,()]+([,)])`), func(r *lib.Rng, m []string) string {
+	{"nil-argument", dmLineMut(regexp.MustCompile(`\(([a-z]\w*): [^,()]+([,)])`), func(r *lib.Rng, m []string) string {
 		return "(" + m[1] + ": nil" + m[2]
 	})},
 }
 
-func imax(a, b int) int {
+func dmImax(a, b int) int {
 	if a > b {
 		return a
 	}
 	return b
 }
 
-func blockEndFrom(lines []string, i int) int {
+func dmBlockEndFrom(lines []string, i int) int {
 	depth := 0
 	for j := i; j < len(lines); j++ {
 		t := lines[j]
@@ -358,7 +358,7 @@ func blockEndFrom(lines []string, i int) int {
 }
 
 // mutate derives a mutant of an accepted program (1 or 2 edits in one step), or nil.
-func mutate(r *lib.Rng, sc *Scenario) *Scenario {
+func dmMutate(r *lib.Rng, sc *dmScenario) *dmScenario {
 	out := sc.clone()
 	out.Mutant = ""
 	out.Key = ""
@@ -389,7 +389,7 @@ func mutate(r *lib.Rng, sc *Scenario) *Scenario {
 	for k := 0; k < n; k++ {
 		done := false
 		for try := 0; try < 6 && !done; try++ {
-			op := mutOps[r.Intn(len(mutOps))]
+			op := dmMutOps[r.Intn(len(dmMutOps))]
 			nl, ok := op.f(r, lines)
 			if ok {
 				lines = nl
